@@ -115,7 +115,7 @@ def chunks(tier):
     for n in range(1, b["ult_max_leaves"] + 1):
         add("ult", n, 30 if n <= 3 else (3 if n == 4 else (2 if n == 5 else 8)))
     for n in range(2, b["pert_max_leaves"] + 1):
-        add("pert", n, 30 if n <= 3 else (2 if n == 4 else (3 if n == 5 else 12)))
+        add("pert", n, 30 if n <= 3 else (1 if n == 4 else (3 if n == 5 else 12)))
     for n in range(2, b["gen_max_leaves"] + 1):
         add("gen", n, 30 if n <= 3 else (2 if n == 4 else 3))
     for n in range(1, b["gen_max_leaves"] + 1):
